@@ -15,7 +15,7 @@ impl Property for C13 {
         "C13"
     }
     fn rule(&self) -> &'static str {
-        "profile `faults`: total programs with clock rows, both driver types, subset/permuted output layouts, and either a failure plan (call index j counted over all calls the driver sees, constructor = 0, write-only calls included; the error carries a unique id) or a deviation plan (at the output-reading call of a checked row: drop, add, duplicate in place, swap two, substitute another output-capable signal, or a same-named signal of different width). Oracle (metamorphic against the fault-free real run of the same test and script): j = 0 => try_iter returns Err(Driver(e)) with that id; otherwise all items before the failing call are equal and the item whose call failed is Err(Driver(e)) with that id; deviation => that item is an error, earlier items equal, and no later row is produced from the deviating answer. Non-trivial: j >= 1, or a deviation on a layout of >= 2 signals; distinct by source + signals + driver + plan."
+        "profile `faults`: total programs with clock rows, both driver types, subset/permuted output layouts, and either a failure plan (call index j counted over all calls the driver sees, constructor = 0, write-only calls included; the error carries a unique id) or a deviation plan (at the output-reading call of a checked row: drop, add, duplicate in place, swap two, substitute another output-capable signal, or a same-named signal of different width). Oracle (metamorphic against the fault-free real run of the same test and script): j = 0 => try_iter returns Err(Driver(e)) with that id; otherwise all items before the failing call are equal and the item whose call failed is Err(Driver(e)) with that id; deviation => that item is an error, earlier items equal, and no later row is produced from the deviating answer; every row statement carries two probe inputs `(P)` reading device outputs, and in the row evaluated right after the deviating call a probe shows what the driver reported for P itself in that call, never another signal's value. Non-trivial: j >= 1, or a deviation on a layout of >= 2 signals; distinct by source + signals + driver + plan."
     }
     fn cases(&self, tier: Tier) -> u64 {
         match tier {
@@ -24,7 +24,7 @@ impl Property for C13 {
         }
     }
     fn required_classes(&self) -> Vec<&'static str> {
-        vec!["fail-at-ctor", "fail-at-checked-row", "fail-at-mid-clock-write", "dev:drop", "dev:add", "dev:duplicate", "dev:swap", "dev:substitute", "dev:rewidth", "overriding-driver", "defaulting-driver", "row-after-deviation-checked"]
+        vec!["fail-at-ctor", "fail-at-checked-row", "fail-at-mid-clock-write", "dev:drop", "dev:add", "dev:duplicate", "dev:swap", "dev:substitute", "dev:rewidth", "overriding-driver", "defaulting-driver", "row-after-deviation-checked", "probe-after-deviation-checked"]
     }
     fn run(&self, s: &Streams) -> CaseOut {
         let mut out = CaseOut::new();
@@ -34,7 +34,11 @@ impl Property for C13 {
         cfg.omit_cols = true;
         cfg.n_out = (1, 4);
         cfg.device_whiles = false;
-        let built = gen_case(&mut Ch::new(&s[0]), &cfg);
+        let mut built = gen_case(&mut Ch::new(&s[0]), &cfg);
+        // every row statement carries a tag and two probe inputs `(P)` reading device outputs
+        let readable: Vec<String> =
+            built.sigs.iter().filter(|s| s.is_output() && is_ident(&s.name)).map(|s| s.name.clone()).collect();
+        let rows = crate::probe::instrument(&mut built, &mut Ch::new(&s[1]), 2, crate::probe::ProbePref::Device, &readable);
         let text = built_text(&built);
         let mut dch = Ch::new(&s[2]);
         let spec0 = gen_spec(
@@ -166,6 +170,40 @@ impl Property for C13 {
                         format!("deviation at item {k}: item {i} is {:?}, fault-free run has {:?}", real.items.get(i).map(|x| x.short()), base.items.get(i).map(|x| x.short())),
                     );
                     return out;
+                }
+            }
+            // The row evaluated right after the deviating call (item k is a checked item, so
+            // item k + 1 starts a fresh evaluation): a probe `(P)` in it reads what the driver
+            // reported for P - for that very signal - in the deviating call, never what it
+            // reported for another signal.
+            if let (Some(RealItem::RuntimeErr(_)), Some(RealItem::Row(next))) = (real.items.get(k), real.items.get(k + 1)) {
+                let info = match next.inputs.iter().find(|e| e.0 == "TAG").map(|e| e.1) {
+                    Some(crate::model::InVal::Val(t)) => rows.get(&((t - 1) as usize)),
+                    _ => None,
+                };
+                let dev_call = real.log.get(real.log_len_before[k]);
+                if let (Some(info), Some(dc)) = (info, dev_call) {
+                    for (j, p) in info.probes.iter().enumerate() {
+                        let Some(name) = p else { continue };
+                        if info.possible.contains(name) {
+                            continue;
+                        }
+                        let Some(si) = built.sigs.iter().position(|s| s.name == *name) else { continue };
+                        let Some(crate::model::OutVal::Val(v)) = dc.answer.iter().find(|(s, _)| *s == si).map(|(_, v)| *v) else { continue };
+                        let Some(crate::model::InVal::Val(shown)) = next.inputs.iter().find(|e| e.0 == format!("PR{j}")).map(|e| e.1) else { continue };
+                        out.class("probe-after-deviation-checked");
+                        if shown != v {
+                            out.fail(
+                                "c13:expression-reads-another-signals-value",
+                                format!(
+                                    "item {} (right after the deviating call for item {k}): ({name}) evaluated to {shown}; in the deviating call the driver reported {name} = {v} (answer {:?})",
+                                    k + 1,
+                                    dc.answer
+                                ),
+                            );
+                            return out;
+                        }
+                    }
                 }
             }
             match real.items.get(k) {
